@@ -238,6 +238,14 @@ func (qc QuorumCert) ToBytes() []byte {
 	b := qc.view.ToBytes()
 	b = append(b, qc.hash[:]...)
 	if qc.signature != nil {
+		// The bytes of a QC are hashed and signed (a block's hash covers its QC, a timeout message the
+		// QC it reports), so they must say WHO signed: the bytes of a BLS aggregate are the same
+		// whichever replicas it is attributed to.
+		participants := qc.signature.Participants()
+		b = binary.LittleEndian.AppendUint32(b, uint32(participants.Len()))
+		participants.ForEach(func(id ID) {
+			b = append(b, id.ToBytes()...)
+		})
 		b = append(b, qc.signature.ToBytes()...)
 	}
 	return b
